@@ -572,7 +572,8 @@ class Check:
 
     def save_replay(self, name, obj):
         os.makedirs(REPLAYS, exist_ok=True)
-        path = os.path.join(REPLAYS, '%s_%s_%d.json' % (self.pid, name, int(time.time() * 1000) % 100000000))
+        self.nreplay = getattr(self, 'nreplay', 0) + 1
+        path = os.path.join(REPLAYS, '%s_%s_%d_%d.json' % (self.pid, name, int(time.time() * 1000) % 100000000, self.nreplay))
         with open(path, 'w') as fh:
             json.dump(obj, fh, indent=1, default=str)
         return path
